@@ -231,7 +231,7 @@ def run(ctx):
     ctx.floor('TEMP-RENAME', 1)
 
     # ---- 4. cache clear after password change
-    cb = prog.async_body(MGR + '::change_password')
+    cb = prog.inl(MGR + '::change_password', keep=r'::(encrypt_and_store|load_and_decrypt|derive_key)$')      # lock helpers spliced in
     enc = [cs for cs in cb.calls() if cs.callee.endswith('::encrypt_and_store::{closure#0}')]
     start = []
     for cs in enc:
